@@ -137,14 +137,20 @@ static bool comp_add_to_data(zckCtx *zck, zckComp *comp, const char *src,
 static ssize_t comp_end_dchunk(zckCtx *zck, bool use_dict, size_t fd_size) {
     VALIDATE_READ_INT(zck);
 
-    ssize_t rb = zck->comp.end_dchunk(zck, &(zck->comp), use_dict, fd_size);
-    if(validate_current_chunk(zck) < 1)
+    /* The stored chunk must match its index checksum before any of it is
+     * decompressed into the output buffer */
+    if(validate_current_chunk(zck) < 1) {
+        set_error(zck, "Chunk failed checksum validation, refusing to "
+                       "decompress it");
+        return -1;
+    }
+    if(!zck->comp.end_dchunk(zck, &(zck->comp), use_dict, fd_size))
         return -1;
     zck->comp.data_loc = 0;
     zck->comp.data_idx = zck->comp.data_idx->next;
     if(!hash_init(zck, &(zck->check_chunk_hash), &(zck->chunk_hash_type)))
         return -1;
-    return rb;
+    return 1;
 }
 
 static ssize_t comp_write(zckCtx *zck, const char *src, const size_t src_size) {
@@ -502,7 +508,7 @@ ssize_t comp_read(zckCtx *zck, char *dst, size_t dst_size, bool use_dict) {
             }
         }
         if(zck->comp.data_loc == zck->comp.data_idx->comp_length) {
-            if(!comp_end_dchunk(zck, use_dict, zck->comp.data_idx->length)) {
+            if(comp_end_dchunk(zck, use_dict, zck->comp.data_idx->length) < 0) {
                 free(src);
                 return -1;
             }
